@@ -180,6 +180,20 @@ def run(ctx, chk):
     if len(ws) == 2:
         seqs = {n: sorted({tuple(r['calls']) for r in w.rows}) for n, w in ws.items()}
         chk.ob('C17.Y5', 'clients:same-call-sequences', seqs['rust'] == seqs['c'], '', 'call sequences into the shm crate: %s' % seqs)
+        # neither wrapper adds a failure (or a success) of its own: a call returns an error exactly when a call into the
+        # shm crate failed, so the two clients cannot disagree on which segments / moments are errors
+        for side, w in ws.items():
+            n_rows = 0
+            for r in w.rows:
+                if r['path'].kind != 'return':
+                    continue
+                n_rows += 1
+                out = r['out']
+                good = out is not None and ((r['stage'] is None) == (out[0] == 'ok'))
+                chk.ob('C17.Y5', 'clients:%s:error-iff-shm-call-failed' % side, good, r['path'].where[2],
+                       '%s client: failing shm call = %s, outcome = %s%s' % (side, r['stage'], out[0] if out else 'unclassified',
+                       '' if good else ' -- an outcome decided by the wrapper itself: the other client library does not make it'))
+            chk.floor('C17.Y5', 'returning paths of the %s client' % side, n_rows, 2)
         kmap = {'Syscall': 'CLOCKBOUND_ERR_SYSCALL', 'SegmentNotInitialized': 'CLOCKBOUND_ERR_SEGMENT_NOT_INITIALIZED',
                 'SegmentMalformed': 'CLOCKBOUND_ERR_SEGMENT_MALFORMED', 'CausalityBreach': 'CLOCKBOUND_ERR_CAUSALITY_BREACH'}
         tr = {(r['stage'], r['shm_err']): r['out'] for r in ws['rust'].rows if r['out'] and r['out'][0] == 'err'}
